@@ -169,6 +169,42 @@ pub fn determinism(ctx: &Ctx, rep: &mut Report) {
     }
     run_variant::<F512>(ctx, &s512, &table, rep);
     run_variant::<F1024>(ctx, &s1024, &table, rep);
+    // (d) both variants from the SAME seed, back to back in one thread, against executions in
+    // fresh threads: per-thread or per-process state that is keyed by the seed alone (a cache
+    // shared between the parameter sets, a memo of the last key) shows up here
+    let xs: Vec<[u8; 32]> = (0..ctx.sz(2, 8)).map(|i| seed32(ctx.seed, &format!("c15-cross-variant-{}", i))).collect();
+    for s in &xs {
+        let s = *s;
+        let fresh5 = std::thread::spawn(move || fingerprint::<F512>(s)).join();
+        let fresh10 = std::thread::spawn(move || fingerprint::<F1024>(s)).join();
+        let inter = std::thread::spawn(move || {
+            let a = fingerprint::<F512>(s);
+            let b = fingerprint::<F1024>(s);
+            let c = fingerprint::<F512>(s);
+            let d = fingerprint::<F1024>(s);
+            (a, b, c, d)
+        })
+        .join();
+        let mut t = table.lock().unwrap();
+        let mut put = |var: &str, who: &str, r: Result<Fp, String>, rep: &mut Report| {
+            rep.evaluations += 1;
+            match r {
+                Ok(fp) => record(&mut t, var, s, who, fp),
+                Err(e) => rep.violation("panic:keygen", format!("{} keygen({}) panicked in {}: {}", var, hex(&s), who, e), json!({"variant": var, "seed": hex(&s)})),
+            }
+        };
+        if let (Ok(a), Ok(b), Ok((i1, i2, i3, i4))) = (fresh5, fresh10, inter) {
+            put("falcon512", "fresh-thread", a, rep);
+            put("falcon1024", "fresh-thread", b, rep);
+            put("falcon512", "same-thread-before-1024-same-seed", i1, rep);
+            put("falcon1024", "same-thread-right-after-512-same-seed", i2, rep);
+            put("falcon512", "same-thread-right-after-1024-same-seed", i3, rep);
+            put("falcon1024", "same-thread-second-time", i4, rep);
+            rep.count("cross_variant_same_seed_sequences", 1);
+        } else {
+            rep.inconclusive("a key generation thread died".into());
+        }
+    }
     for (c, mut ch, out) in kids {
         let st = ch.wait();
         let text = std::fs::read_to_string(&out).unwrap_or_default();
